@@ -308,8 +308,14 @@ def main(tier):
                            ('float', 'int', 'int'), ('int', 'int', 'int'), ('float', 'float', 'int')):
             run.add(SpecTask(EncodeNumber(L, vk, rk, ok)))
     run.add(SpecTask(GetFieldById(True)), SpecTask(GetFieldById(False)))
+    from contracts.message_c import GetFieldDbTask
+    for ch in chunks(encodable_defs(), 24):
+        run.add(GetFieldDbTask('C09', ch))
     for ch in chunks(encodable_defs(), 48):
         run.add(ArbitraryMessageTask(ch))
+    from contracts.helpers_c import encode_helper_tasks
+    for t in encode_helper_tasks('C09'):
+        run.add(t)
     from props import C09_extra
     C09_extra.add(run, tier)
     run.trust('pyvc state-merging symbolic execution of the generated encoders', 'float model S (u = 2^-53)', 'z3 5.1 / cvc5 1.0.3')
